@@ -29,41 +29,100 @@ def build_engine(tier):
     return e, reg
 
 
-def _split_one(args):
-    """Run the root path of a heavy (function, case) job and return the sub-tree prefixes found along it."""
-    key, case, tier = args
-    try:
-        e, reg = build_engine(tier)
-        rep = e.verify(key, only_case=case, split_only=True)
-        res = []
-        for k, r in e.results.items():
-            r = dict(r)
-            r["id"] = f"{r['fn']}/{r['name']}"
-            res.append(r)
-        return key, case, [list(p) for p in e.split_pending], None, rep, res
-    except Exception:
-        return key, case, [], traceback.format_exc(), None, []
+_ENGINE = {}
 
 
-def _verify_one(args):
-    key, case, tier = args[:3]
-    roots = args[3] if len(args) > 3 else None
+def _worker_engine(tier):
+    if tier not in _ENGINE:
+        _ENGINE[tier] = build_engine(tier)
+    return _ENGINE[tier]
+
+
+def _run_batch(args):
+    """Worker task: explore a batch of single paths (decision prefixes) of (function, case) jobs; lemmas run whole."""
+    tier, items = args
+    out = []
     try:
-        e, reg = build_engine(tier)
-        t0 = time.time()
-        if key.startswith("lemma:"):
-            reg.LEMMAS[key](e)
-            rep = dict(key=key, paths=0, undecided=[], cases={}, time_s=time.time() - t0, sha256=None)
-        else:
-            rep = e.verify(key, only_case=case, roots=roots)
-        res = []
-        for k, r in e.results.items():
-            r = dict(r)
-            r["id"] = f"{r['fn']}/{r['name']}"
-            res.append(r)
-        return key, rep, res, None
+        e, reg = _worker_engine(tier)
+        sent = _ENGINE.setdefault("sent", set())
+        if len(e.results) > 200000:
+            e.results = {}
+            sent.clear()
+        for (key, case, prefix) in items:
+            if key.startswith("lemma:"):
+                t0 = time.time()
+                reg.LEMMAS[key](e)
+                rep = dict(key=key, paths=0, undecided=[], cases={}, time_s=time.time() - t0, sha256=None)
+                pend, exits, und = [], {}, []
+            else:
+                pend, exits, und, rep = e.run_one(key, case, prefix)
+            res = []
+            for k, r in e.results.items():
+                if k in sent:
+                    continue
+                sent.add(k)
+                r = dict(r)
+                r["id"] = f"{r['fn']}/{r['name']}"
+                res.append(r)
+            out.append((key, case, pend, exits, und, rep, res, None))
     except Exception:
-        return key, None, [], traceback.format_exc()
+        out.append((items[0][0] if items else "?", None, [], {}, [], None, [], traceback.format_exc()))
+    return out
+
+
+def explore_parallel(pool, jobs, tier, nproc, max_paths=400000):
+    """Level-synchronous, path-parallel exploration of all jobs: every task is one path; the alternative prefixes found along
+    it go back to the common frontier."""
+    import queue
+    q = queue.Queue()
+    fn_reports, results, errors = {}, {}, []
+    npaths = 0
+    outstanding = 0
+
+    def submit(items):
+        nonlocal outstanding
+        outstanding += 1
+        pool.apply_async(_run_batch, ((tier, items),), callback=q.put,
+                         error_callback=lambda ex: q.put([("?", None, [], {}, [], None, [], repr(ex))]))
+    for (k, cn) in jobs:
+        submit([(k, cn, [])])
+    backlog = []
+    while outstanding:
+        out = q.get()
+        outstanding -= 1
+        for (key, case, pend, exits, und, rep, res, err) in out:
+            if err:
+                errors.append((key, err))
+                continue
+            npaths += 1
+            fr = fn_reports.setdefault(key, dict(key=key, sha256=rep.get("sha256"), line=rep.get("line"), cases={}, undecided=[], paths=0, time_s=0.0))
+            fr["paths"] += 1
+            fr["time_s"] += rep.get("time_s", 0.0)
+            if case is not None:
+                cs = fr["cases"].setdefault(case, dict(paths=0, exits={}))
+                cs["paths"] += 1
+                for k2, v2 in exits.items():
+                    cs["exits"][k2] = cs["exits"].get(k2, 0) + v2
+            for u in und:
+                if u not in fr["undecided"]:
+                    fr["undecided"].append(u)
+            for r in res:
+                results.setdefault((r["fn"], r["name"], tuple(r.get("path") or ()), r.get("line")), r)
+            backlog += [(key, case, p) for p in pend]
+        if npaths > max_paths:
+            errors.append(("*", f"more than {max_paths} paths"))
+            break
+        # keep every worker busy; batch when the backlog is large to amortise task overhead
+        while backlog and outstanding < nproc * 3:
+            n = 1 if len(backlog) < nproc * 6 else 4
+            submit(backlog[:n])
+            backlog = backlog[n:]
+    # a contract case none of whose paths reaches an exit is vacuous
+    for key, fr in fn_reports.items():
+        for cn, cs in fr["cases"].items():
+            if not any(k != "(cut)" for k in cs["exits"]) and not fr["undecided"]:
+                fr["undecided"].append(f"{cn}: no path reaches an exit (vacuous contract case)")
+    return fn_reports, list(results.values()), errors
 
 
 def load_known():
@@ -98,48 +157,19 @@ def main(argv=None):
         jobs = []
         for k in keys:
             if k.startswith("lemma:"):
-                jobs.append((k, None, tier))
+                jobs.append((k, None))
             elif k not in e0.contracts:
                 raise KeyError(f"no contract registered for {k}")
             else:
-                jobs += [(k, cn, tier) for cn, _ in e0.contracts[k].cases]
-        # longest jobs first (recorded cost hints), so that the pool is balanced
-        heavy = [j for j in jobs if reg.COST.get(j[0], 1) >= 50]
-        light = [j for j in jobs if reg.COST.get(j[0], 1) < 50]
-        with mp.get_context("fork").Pool(min(a.jobs, max(1, len(jobs)))) as pool:
-            # heavy jobs are split into the sub-trees hanging off their root path (two levels), explored in parallel
-            split = pool.map(_split_one, heavy, chunksize=1)
-            sub, root_outs = [], []
-            for (k, cn, prefixes, err, rep, res) in split:
-                if err:
-                    print(f"CHECKER-ERROR while splitting {k}/{cn}:\n{err}", file=sys.stderr)
-                    return 3
-                root_outs.append((k, rep, res, None))  # the root path itself
-                sub += [(k, cn, tier, [p]) for p in prefixes]
-            light.sort(key=lambda j: -reg.COST.get(j[0], 1))
-            outs = root_outs + pool.map(_verify_one, sub + light, chunksize=1)
+                jobs += [(k, cn) for cn, _ in e0.contracts[k].cases]
+        with mp.get_context("fork").Pool(a.jobs) as pool:
+            fn_reports, results, errors = explore_parallel(pool, jobs, tier, a.jobs)
     except Exception:
         traceback.print_exc()
         return 3
-    crashed = [(k, err) for k, rep, res, err in outs if err]
+    crashed = errors
     for k, err in crashed:
         print(f"CHECKER-ERROR in {k}:\n{err}", file=sys.stderr)
-    fn_reports, results = {}, []
-    for k, rep, res, err in outs:
-        if rep is not None:
-            if k in fn_reports:
-                old = fn_reports[k]
-                old["cases"].update(rep.get("cases", {}))
-                old["paths"] = old.get("paths", 0) + rep.get("paths", 0)
-                old["undecided"] = old.get("undecided", []) + rep.get("undecided", [])
-                old["time_s"] = old.get("time_s", 0) + rep.get("time_s", 0)
-            else:
-                fn_reports[k] = rep
-        results.extend(res)
-    uniq = {}
-    for r in results:
-        uniq.setdefault((r["fn"], r["name"], tuple(r.get("path") or ()), r.get("line")), r)
-    results = list(uniq.values())
     # ---- verdicts ------------------------------------------------------------------------------
     known = [f for f in load_known() if f.get("property") == pid and f.get("status") == "known"]
     failed = [r for r in results if r["verdict"] == "failed"]
